@@ -119,6 +119,14 @@ func c08Run(e *Env) {
 			return
 		}
 		n := ParseNonce(m)
+		if n < 0 {
+			// the deregistration request carries no query: identify the observation by its token
+			for _, x := range obs {
+				if x.token != nil && bytes.Equal(x.token, m.Token) {
+					n = x.idx
+				}
+			}
+		}
 		if n < 0 || n >= len(obs) {
 			return
 		}
